@@ -20,6 +20,10 @@
  * batching.
  */
 #define URCU_WAIT_ATTEMPTS 1000
+#if defined(URCU_VERIF) && defined(URCU_VERIF_URCU_WAIT_ATTEMPTS)
+#undef URCU_WAIT_ATTEMPTS
+#define URCU_WAIT_ATTEMPTS URCU_VERIF_URCU_WAIT_ATTEMPTS
+#endif
 
 enum urcu_wait_state {
 	/* URCU_WAIT_WAITING is compared directly (futex compares it). */
